@@ -94,7 +94,7 @@ Ltac upd_tac :=
       first [ rewrite (upd_eq f i v) | rewrite (upd_neq f i j v) by (try congruence; try lia)
             | let e := fresh "e" in let ne := fresh "ne" in
               destruct (Nat.eq_dec j i) as [e|ne];
-              [ rewrite e; rewrite (upd_eq f i v) | rewrite (upd_neq f i j v ne) ] ]
+              [ rewrite e; rewrite upd_eq | rewrite (upd_neq f i j v ne) ] ]
   end.
 
 (* the facts of a producer at a known control point *)
